@@ -846,7 +846,7 @@ fn main() {
     }
 
     let threads = a.pick(3, 10) as u64;
-    let sets_per_thread = a.pick(14u64, 400);
+    let sets_per_thread = a.pick(40u64, 400);
     let transmits = 200usize;
     std::thread::scope(|s| {
         for t in 0..threads {
